@@ -21,6 +21,53 @@ PENDING = "check not built yet in this round (static rules designed in DESIGN.md
 TEXT = {}
 
 
+TECHNIQUE = {
+    "C01": "sibling-interpreter agreement by dispatch recovery (Operator.shape / _pyrtl templates / _pyeval / NIR builder), "
+           "f-string template taint analysis (raw vs normalised operand holes), partial evaluation of Operator.shape with "
+           "symbolic widths compared in max-plus normal form, dunder/override table cross-check, window polynomials of "
+           "constant-folded part selects",
+    "C02": "template recovery of the generated switch/assignment code, statement-order (CFG dominance) rules for reset-then-"
+           "statements, window arithmetic of the three assignment walkers in polynomial normal form with entry-clip "
+           "detection, masked read-modify-write idiom check, per-domain case-list completeness",
+    "C03": "call-site resolution of clock/reset wakers (polarity and domain arguments, local alias resolution), "
+           "who-handles-what tables of the fragment transformers (memory ports, enables, resets), reset_less guards",
+    "C04": "operator-universe exhaustiveness and table agreement between the NIR builder and the RTLIL emitter (cell name, "
+           "signedness flags, operand order), path summaries per operator with infeasible-path pruning, cache-key "
+           "completeness of memoised emitters",
+    "C05": "must-pass-through (CFG) of settle/step calls in the testbench context, evaluator/assignment walker rules shared "
+           "with C01/C02 restricted to the testbench evaluator",
+    "C06": "CFG path rule of the cycle detector (busy set, raise condition), check-then-record typestate of driver and I/O "
+           "bookkeeping, call-order rule (cycle check before net resolution), per-bit dependency tables per cell kind",
+    "C07": "writer-side table check of every emitted RTLIL cell (parameter = width of the connected operand, names through "
+           "the de-duplicating allocator), symbolic width equalities",
+    "C08": "who-may-write analysis of simulator state (curr/next), commit ordering by CFG reachability, container-kind "
+           "inference for iteration order, pending-value merge base",
+    "C09": "container-kind inference: every for/comprehension over a hash-ordered container reaching emitted output is "
+           "flagged unless sorted or exempt by table; reset re-initialisation typestate; archive time-stamp rule",
+    "C10": "normalisation-path rules of Signal/Const construction (every init value passes through the normaliser), "
+           "raise-before-use ordering, shape-castable protocol call sites",
+    "C11": "memory state who-may-write, transparency patch ordering, read-modify-write mask idiom, port parameter tables "
+           "shared with C04/C07",
+    "C12": "Module-DSL elaborate() analyser: syntactic support of guards (accepted strobes), range/modulus/depth expression "
+           "agreement, level bookkeeping guards",
+    "C13": "Module-DSL elaborate() analyser (side placement, Gray register crossing), interval analysis of constant bit "
+           "indices against constructor arithmetic, abstract interpretation of the Gray helpers over GF(2)-affine bit "
+           "vectors for pointer widths 1..33, synchroniser stage-count ordering resolved from call sites and defaults",
+    "C14": "flip-involution table (which accessors flip), connect() bookkeeping path rules, sibling agreement between "
+           "Signature/FlippedSignature members",
+    "C15": "View/Const twin agreement by path summaries with bit windows in polynomial normal form, accumulator idiom "
+           "check of layout offsets, strided-slice contiguity by finite difference, flag-operator tables, assignment "
+           "window rules shared with C02",
+    "C17": "Module-DSL elaborate() analyser of the CDC primitives: stage chains, domain placement, forwarded parameters",
+    "C18": "field-wise agreement of port slicing/concatenation/inversion, sibling agreement of the three buffer kinds "
+           "(direction checks, domain placement), I/O use check-then-record shared with C06",
+    "C19": "CFG check-then-commit of ResourceManager.request over a closure supergraph (or snapshot/rollback), dominance "
+           "of the clash test, order preservation of pin lists, Jinja constraint-template slot analysis, writer/reader "
+           "agreement of net names",
+    "C20": "format-spec handling paths (parse before use), template recovery of generated print/assert code (whole-condition "
+           "truth test), control-inserter coverage of print/assert domains",
+}
+
 def main():
     checks = []
     na = []
@@ -62,8 +109,7 @@ def main():
                           "available in the image); the paper arguments in DESIGN.md. A pass means no structural "
                           "violation of the listed clauses (rules " + ", ".join(rules) + "); clauses listed as NOT "
                           "decided are outside the claim.",
-            "technique": "static analysis: custom ast checkers (dispatch/sibling agreement, template taint, CFG path "
-                         "rules, symbolic normal forms)",
+            "technique": "static analysis (stdlib ast over /repo's source, nothing executed): " + TECHNIQUE[pid],
         })
     manifest = {
         "version": 1,
